@@ -36,7 +36,7 @@ theorem mkIsoName_name (m : Msg) (name : Nat) (n : IsoName) (h : mkIsoName m nam
     n.name = name := by
   unfold mkIsoName at h
   simp only [Option.bind_eq_bind, Option.pure_def, Option.bind_eq_some_iff] at h
-  obtain ⟨_, _, _, _, _, _, _, _, _, _, _, _, _, _, _, _, _, _, _, _, _, _, _, _, _, _, _, _, h⟩ := h
+  obtain ⟨_, _, _, _, _, _, _, _, _, _, _, _, _, _, _, _, _, _, _, _, h⟩ := h
   simp only [Option.some.injEq] at h
   rw [← h]
 
